@@ -294,6 +294,12 @@ func init() {
 		k := map[string]types.BasicKind{"Int32": types.Int32, "Int64": types.Int64, "Uint32": types.Uint32, "Uint64": types.Uint64, "Uintptr": types.Uintptr}[ty]
 		ext["sync/atomic.Add"+ty] = func(fr *frame, a []value) value {
 			fr.i.sch.yield("atomic")
+			if sp, ok := a[0].(symptr); ok {
+				// element chosen by a symbolic index: read-modify-write through the ite encoding
+				nv := mkval(fr.i.ex.ctx.Bin(smt.OAdd, fr.i.term(fr.i.symLoad(sp)), fr.i.term(a[1])), k)
+				fr.i.symStore(sp, nv)
+				return nv
+			}
 			p := a[0].(*value)
 			if isSym(*p) || isSym(a[1]) {
 				*p = mkval(fr.i.ex.ctx.Bin(smt.OAdd, fr.i.term(*p), fr.i.term(a[1])), k)
@@ -302,7 +308,13 @@ func init() {
 			}
 			return *p
 		}
-		ext["sync/atomic.Load"+ty] = func(fr *frame, a []value) value { fr.i.sch.yield("atomic"); return *(a[0].(*value)) }
+		ext["sync/atomic.Load"+ty] = func(fr *frame, a []value) value {
+			fr.i.sch.yield("atomic")
+			if sp, ok := a[0].(symptr); ok {
+				return fr.i.symLoad(sp)
+			}
+			return *(a[0].(*value))
+		}
 		ext["sync/atomic.Store"+ty] = func(fr *frame, a []value) value {
 			fr.i.sch.yield("atomic")
 			*(a[0].(*value)) = a[1]
@@ -880,6 +892,43 @@ func init() {
 }
 
 func init() {
+	// rt.Watch(p, mu, id): p is a pointer to a struct, a pointer to a scalar, or a slice; a
+	// spawned goroutine may touch that memory only through sync/atomic or while write-holding *mu
+	rtExternals["Watch"] = func(fr *frame, a []value) value {
+		var mu *value
+		if a[1].(iface).t != nil {
+			mu, _ = a[1].(iface).v.(*value)
+		}
+		if fr.i.watches == nil {
+			fr.i.watches = map[*value]watch{}
+		}
+		w := watch{mu: mu, id: a[2].(string)}
+		var add func(p *value)
+		add = func(p *value) {
+			fr.i.watches[p] = w
+			switch x := (*p).(type) {
+			case structure:
+				for j := range x {
+					add(&x[j])
+				}
+			case array:
+				for j := range x {
+					add(&x[j])
+				}
+			}
+		}
+		switch x := a[0].(iface).v.(type) {
+		case *value:
+			add(x)
+		case []value:
+			for j := range x {
+				add(&x[j])
+			}
+		default:
+			panic(engineError{fmt.Sprintf("rt.Watch: unsupported operand %T", x)})
+		}
+		return nil
+	}
 	// rt.Guard(m, mu, id): map m must only be read with *mu held and written with it write-held;
 	// with mu == nil the guarding mutex is inferred (lockset discipline, Eraser style): the
 	// mutexes held at every access by a spawned goroutine must have a non-empty intersection
